@@ -5,7 +5,7 @@ seeds="${@:-2 3 5 8 13}"
 cd "$(dirname "$0")/.."
 rc=0
 for s in $seeds; do
-  VERIF_SEED=$s ./check "$pid" --tier quick 2>&1 | tail -3 | grep -E "VIOLATION|HARNESS|held|VIOLATED" || rc=1
+  VERIF_EVIDENCE_DIR=/tmp/seedv/ev_seeds_$pid VERIF_SEED=$s ./check "$pid" --tier quick 2>&1 | tail -3 | grep -E "VIOLATION|HARNESS|held|VIOLATED" || rc=1
 done
-git checkout -- evidence 2>/dev/null
+
 exit $rc
